@@ -648,6 +648,37 @@ fn w4_hostile(ctx: &mut Ctx) {
             for big in [false, true] {
                 judge(ctx, &history_case(&init, &[Step::Read(vec![0xff; nbytes], n, big), Step::Resize(cap.map_or(n + 9, |c| (n + 9).min(c)), false)]), "W4-hostile");
             }
+            // spare storage words first (reserve, or grown and cut back), then every native integer type at its extreme
+            // values and a longer vector operand of every class: words the length does not use must stay untouched
+            if cap.is_none() {
+                let prefixes: [Vec<Step>; 3] = [
+                    vec![Step::Reserve(n + 130)],
+                    vec![Step::Resize(n + 130, false), Step::Truncate(n)],
+                    vec![Step::Resize(n + 70, true), Step::Resize(n, false)],
+                ];
+                for (pi, pre) in prefixes.iter().enumerate() {
+                    for x in [UInt::U8(0xF0), UInt::U16(0xFFFF), UInt::U32(u32::MAX), UInt::U64(u64::MAX), UInt::Usize(usize::MAX), UInt::U128(u128::MAX), UInt::U128(1u128 << 64), UInt::U128(1u128 << 127)] {
+                        for op in [model::Op::Or, model::Op::Xor, model::Op::And, model::Op::Add, model::Op::Sub, model::Op::Mul] {
+                            let mut st = pre.clone();
+                            st.push(Step::BinUint(op, ALL_FORMS[rng.below(6)], x));
+                            judge(ctx, &history_case(&init, &st), "W4-hostile");
+                        }
+                    }
+                    if pi < 2 {
+                        for tb in [4usize, 9, 11, IDX_BVD, IDX_BV] {
+                            let capb = TYPE_FIXED_CAP[tb].unwrap_or(n + 140);
+                            if capb <= n {
+                                continue;
+                            }
+                            for op in [model::Op::Or, model::Op::Xor, model::Op::Add, model::Op::Sub] {
+                                let mut st = pre.clone();
+                                st.push(Step::Bin(op, ALL_FORMS[rng.below(6)], Spec::set(tb, vec![true; capb.min(n + 140)])));
+                                judge(ctx, &history_case(&init, &st), "W4-hostile");
+                            }
+                        }
+                    }
+                }
+            }
             // reserve, then arithmetic with a longer fixed operand
             if cap.is_none() {
                 for tb in [8usize, 9, 11] {
